@@ -100,6 +100,8 @@ type CallFact struct {
 type Config struct {
 	Targets []Target   `json:"targets"`
 	Calls   []CallFact `json:"calls"`
+	// Skeletons: statement skeletons of whole functions (skel.go).
+	Skeletons []SkelFact `json:"skeletons"`
 }
 
 type tr struct {
@@ -998,6 +1000,7 @@ func main() {
 			}
 		}()
 	}
+	errs = append(errs, emitSkeletons(cfg.Skeletons, repo, &out)...)
 	// call facts
 	out.WriteString("/-- (file, callee, args) for every call of the listed callees. -/\n")
 	out.WriteString("def callSites : List (String × String × List String) := [\n")
